@@ -122,8 +122,7 @@ theorem C16_remove_spec (cfg : Cfg) (sp : Char → Bool) (hsp : sp ' ' = true) (
     · simp [classOf, hc]
   · split at h
     · cases h
-      rw [classOf, textOf_dictSet]
-      simp only [AttrVal.str]
+      rw [classOf, textOf_dictSet, rejoinVal_str]
       rw [tokens_joinStr sp hsp]
       · rfl
       · intro v hv
@@ -161,6 +160,50 @@ theorem C16_remove_drops (cfg : Cfg) (sp : Char → Bool) (a a' : Attrs) (t : St
     have hk' : (tokens sp (classOf a)).filter (fun v => v != strip sp t) = [] := by
       simpa [keptTokens, classOf] using hk
     simp [hk', alookup_dictPop_self classKey a a' hwf h]
+
+/-- the mark of the class value is kept: what remains of an HTML()-marked value is HTML()-marked (so it is written
+    verbatim and nothing is escaped a second time), what remains of a plain value is plain -/
+theorem C16_remove_keeps_mark (cfg : Cfg) (sp : Char → Bool) (a a' : Attrs) (t : Str) (v' : AttrVal)
+    (hwf : (keysOf a).Nodup) (h : removeClass cfg sp a t = .ok a') (h' : alookup classKey a' = some v') :
+    ∃ v, alookup classKey a = some v ∧ v'.isHtml = v.isHtml := by
+  rw [removeClass_eq] at h
+  split at h
+  · cases h; exact ⟨v', h', rfl⟩
+  · rename_i hc
+    have hsome : ∃ v, alookup classKey a = some v := by
+      cases hl : alookup classKey a with
+      | none => exact absurd (.inr (textOf_eq_nil_of_none _ _ hl)) hc
+      | some v => exact ⟨v, rfl⟩
+    obtain ⟨v, hv⟩ := hsome
+    split at h
+    · cases h
+      rw [alookup_dictSet_self] at h'
+      cases h'
+      exact ⟨v, hv, by rw [rejoinVal_isHtml, hv]⟩
+    · -- the attribute was dropped: there is no class value afterwards
+      rw [alookup_dictPop_self classKey a a' hwf h] at h'
+      cases h'
+
+/-- rendered: removing a token from `HTML("a&amp;b c")` leaves `class="a&amp;b"`, not `class="a&amp;amp;b"` -/
+theorem C16_remove_rendered_once :
+    removeClass srcCfg (fun c => c == ' ') [(classKey, .html ['a', '&', 'a', 'm', 'p', ';', 'b', ' ', 'c'])] ['c']
+      = .ok [(classKey, .html ['a', '&', 'a', 'm', 'p', ';', 'b'])] ∧
+    (Node.tag ['d', 'i', 'v'] true [(classKey, .html ['a', '&', 'a', 'm', 'p', ';', 'b'])] .nil).render srcCfg 0 ['\n']
+      = ['<', 'd', 'i', 'v', ' ', 'c', 'l', 'a', 's', 's', '=', '"', 'a', '&', 'a', 'm', 'p', ';', 'b', '"', '>', '<', '/', 'd', 'i', 'v', '>'] := by
+  constructor
+  · rfl
+  · decide
+
+/-- **F-C16b.** `remove_class` as pinned stores a plain `str`: the HTML() mark is lost (also when the token does not
+    occur at all), and the renderer escapes the remaining tokens a second time: `class="a&amp;amp;b"` -/
+theorem C16_remove_mark_fails_for_pinned :
+    removeClassPinned srcCfg (fun c => c == ' ') [(classKey, .html ['a', '&', 'a', 'm', 'p', ';', 'b', ' ', 'c'])] ['c']
+      = .ok [(classKey, .plain ['a', '&', 'a', 'm', 'p', ';', 'b'])] ∧
+    (Node.tag ['d', 'i', 'v'] true [(classKey, .plain ['a', '&', 'a', 'm', 'p', ';', 'b'])] .nil).render srcCfg 0 ['\n']
+      = ['<', 'd', 'i', 'v', ' ', 'c', 'l', 'a', 's', 's', '=', '"', 'a', '&', 'a', 'm', 'p', ';', 'a', 'm', 'p', ';', 'b', '"', '>', '<', '/', 'd', 'i', 'v', '>'] := by
+  constructor
+  · rfl
+  · decide
 
 /-- nothing to do: empty argument, no class attribute, or `class=""` -/
 theorem C16_remove_noop (cfg : Cfg) (sp : Char → Bool) (a : Attrs) (t : Str)
@@ -345,7 +388,7 @@ example : isToken spA ['f', 'o'] = true ∧ plainOrSafe srcCfg [(classKey, .html
     ∧ plainOrSafe srcCfg [(classKey, .plain ['a'])] ['d', '<'] = true := by decide
 
 example : removeClass srcCfg spA [(classKey, .html ['f', 'o', ' ', 'f', 'o', 'o', '\t', 'f', 'o'])] [' ', 'f', 'o']
-    = .ok [(classKey, .plain ['f', 'o', 'o'])] := by rfl
+    = .ok [(classKey, .html ['f', 'o', 'o'])] := by rfl
 
 example : css (fun s => s) (some []) [(['a', '_', 'B'], .text ['1']), (['x'], .none), (['y'], .list [['p'], ['q']])]
     = .ok (some ['a', '-', '-', 'B', ':', '1', ';', 'y', ':', 'p', ' ', 'q', ';']) := by rfl
